@@ -161,6 +161,9 @@ def run(ctx):
             jobs.append((name, sc))
             meta[name] = (None, "w", pt, sc)
     impl = ctx.batch(jobs, clean=True, op_timeout=5)
+    if jobs:
+        j0 = jobs[len(jobs) // 3]
+        ctx.notes["l1_example"] = {"name (format|workload|fault point|kind|single-shot)": j0[0], "script": j0[1][:1200], "implementation_transcript": impl.get(j0[0], [])[:14]}
     inp = "".join("== %s\n%s" % (n, s) for (n, s) in jobs)
     p = subprocess.run([ctx.sfmodel(), "faults"], input=inp, capture_output=True, text=True, timeout=900)
     if p.returncode != 0:
@@ -216,6 +219,9 @@ def run(ctx):
     t0 = time.time()
     out = ctx.batch(jobs, clean=True, op_timeout=5 if quick else 10)
     ctx.notes["enumeration_wall_s"] = round(time.time() - t0, 1)
+    if jobs:
+        j0 = jobs[len(jobs) // 2]
+        ctx.notes["enum_example"] = {"name (format|workload|fault point|kind|single-shot)": j0[0], "script": j0[1][:1200], "implementation_transcript": out.get(j0[0], [])[:14]}
     stats = collections.Counter()
     fired_hist = collections.Counter()
     kf_hits = collections.Counter()
@@ -267,8 +273,8 @@ def run(ctx):
         found_input = True
     if failed and not found_input:
         ctx.violation("lean-stage", "theorem(s) no longer check: %s\n%s" % (", ".join(failed), ctx.notes.get("lean_log_tail", "")), no_input=True)
-    ctx.sample({"kind": "L1 fault schedule vs model", "example": "wav-pcm16|w|15|3|1 (single-shot seek failure at the seek back of a header rewrite)"})
-    ctx.sample({"kind": "K-complete enumeration", "formats": len(reps), "scripts": stats["scripts"]})
+    ctx.sample(dict({"kind": "L1 fault schedule, implementation vs Sf.Faults"}, **ctx.notes.pop("l1_example", {})))
+    ctx.sample(dict({"kind": "K-complete enumeration (C15 predicate on the implementation transcript)", "formats": len(reps), "scripts": stats["scripts"]}, **ctx.notes.pop("enum_example", {})))
     ctx.coverage["rule"] = ("for each representative format and each workload {write(+header update)-close, open-read-seek-close, rdwr}: K = callbacks of the fault-free run "
                             "(iolog), then for EVERY i in 1..K every fault kind that can alter callback i (zero, short, short-by-one, seek failure, length too big/small, "
                             "tell off by 7, everything fails), persistent from i and single-shot; complete and redundancy-free. L1 formats additionally byte-for-byte against "
